@@ -182,7 +182,7 @@ def gen_driver(info: ProgInfo):
     # E
     w("  case 'E': {")
     if info.eof:
-        w("    int r; if (dead) break; if (flags & 1) move_state(); alarm(5); r = (int)%s_end(cur); alarm(0); fprintf(out, \"R end %%d -1 \", r); snap(cur); check_guard();" % n)
+        w("    int r; if (dead) break; if (flags & 1) move_state(); alarm(5); r = (int)%s_end(cur); alarm(0); fprintf(out, \"R end %%d -1 \", r); snap(cur); check_guard(); if (r == 2 || (r >= 3 && r < %d)) dead = 1;" % (n, info.first_yield))
     else:
         w("    fprintf(out, \"NOEND\\n\");")
     w("    break; }")
